@@ -395,6 +395,13 @@ Result<WorkResult, WorkError>
             }
             else
             {
+                /*  A target that was just recovered or downloaded is a different file from the one
+                    the blob's remembered state describes.  A file restored from the cache keeps its
+                    old modified-time, which can coincide with the remembered one (files written in
+                    the same clock tick), so the remembered state must not be trusted for it. */
+                info.blob.forget_file_states(
+                    |i| !matches!(resolutions[i], FileResolution::AlreadyCorrect));
+
                 let file_state_vec = match info.blob.get_current_file_state_vec(&info.system)
                 {
                     Ok(file_state_vec) => file_state_vec,
